@@ -56,6 +56,7 @@ class ActionContext(abc.ABC):
         self.trigger_context: 'TriggerContext' = parent
         self.location_action: 'LocationAction' = action
         self._triggered = False
+        self._claimed = False
         self._var_cache = None
 
     @property
@@ -78,6 +79,9 @@ class ActionContext(abc.ABC):
         """Exit and close the context."""
         if self.has_triggered():
             self.location_action.record_triggered(self.trigger_context.ts)
+        elif self._claimed:
+            # we passed the limits, but did not process the action (e.g. the condition failed)
+            self.location_action.release(self.trigger_context.ts)
 
     def eval_watch(self, watch: str, source: str) -> Tuple[WatchResult, Dict[str, Variable], str]:
         """
@@ -139,6 +143,7 @@ class ActionContext(abc.ABC):
         """
         if not self.location_action.can_trigger(self.trigger_context.ts):
             return False
+        self._claimed = True
         if self.location_action.condition is None or len(self.location_action.condition.strip()) == 0:
             return True
         result = self.trigger_context.evaluate_expression(self.location_action.condition)
